@@ -4,7 +4,7 @@ use std::net::IpAddr;
 use crate::NetflowPacket;
 use crate::protocol::ProtocolTypes;
 use crate::static_versions::{v5::V5, v7::V7};
-use crate::variable_versions::data_number::FieldValue;
+use crate::variable_versions::data_number::{DataNumber, FieldValue};
 use crate::variable_versions::ipfix_lookup::IPFixField;
 use crate::variable_versions::v9_lookup::V9Field;
 use crate::variable_versions::{
@@ -116,6 +116,43 @@ impl From<&V7> for NetflowCommon {
     }
 }
 
+/// Protocol number and protocol name of a V9 `PROTOCOL` (4) value.
+///
+/// The V9 decoder reports this field as [`FieldValue::ProtocolType`], the name the wire
+/// octet stands for; the number is that name's own number. A decoded
+/// [`ProtocolTypes::Unknown`] no longer knows its octet, so the name is reported without
+/// a number rather than with an invented one.
+///
+/// A one byte [`DataNumber`] is accepted as well for records that were not produced by
+/// the decoder.
+fn v9_protocol(value: &FieldValue) -> Option<(Option<u8>, ProtocolTypes)> {
+    match value {
+        FieldValue::ProtocolType(ProtocolTypes::Unknown) => Some((None, ProtocolTypes::Unknown)),
+        FieldValue::ProtocolType(protocol) => Some((Some(u8::from(*protocol)), *protocol)),
+        FieldValue::DataNumber(DataNumber::U8(number)) => {
+            Some((Some(*number), ProtocolTypes::from(*number)))
+        }
+        _ => None,
+    }
+}
+
+/// Milliseconds of a V9 `FIRST_SWITCHED` (22) / `LAST_SWITCHED` (21) value.
+///
+/// The V9 decoder reports these fields as a [`FieldValue::Duration`] built from the
+/// milliseconds on the wire, so the whole milliseconds of the duration are that number
+/// again. A duration that does not fit the 32 bits of the common view (only possible
+/// with a field wider than the standard 4 bytes) is not reported rather than truncated.
+///
+/// A [`DataNumber::U32`] is accepted as well for records that were not produced by the
+/// decoder.
+fn v9_sys_uptime_millis(value: &FieldValue) -> Option<u32> {
+    match value {
+        FieldValue::Duration(duration) => u32::try_from(duration.as_millis()).ok(),
+        FieldValue::DataNumber(DataNumber::U32(millis)) => Some(*millis),
+        _ => None,
+    }
+}
+
 impl From<&V9> for NetflowCommon {
     fn from(value: &V9) -> Self {
         // Convert V9 to NetflowCommon
@@ -126,6 +163,7 @@ impl From<&V9> for NetflowCommon {
                 for data_field in &data.fields {
                     let value_map: BTreeMap<V9Field, FieldValue> =
                         data_field.values().cloned().collect();
+                    let protocol = value_map.get(&V9Field::Protocol).and_then(v9_protocol);
                     flowsets.push(NetflowCommonFlowSet {
                         src_addr: value_map
                             .get(&V9Field::Ipv4SrcAddr)
@@ -141,20 +179,14 @@ impl From<&V9> for NetflowCommon {
                         dst_port: value_map
                             .get(&V9Field::L4DstPort)
                             .and_then(|v| v.try_into().ok()),
-                        protocol_number: value_map
-                            .get(&V9Field::Protocol)
-                            .and_then(|v| v.try_into().ok()),
-                        protocol_type: value_map.get(&V9Field::Protocol).and_then(|v| {
-                            v.try_into()
-                                .ok()
-                                .map(|proto: u8| ProtocolTypes::from(proto))
-                        }),
+                        protocol_number: protocol.and_then(|(number, _)| number),
+                        protocol_type: protocol.map(|(_, name)| name),
                         first_seen: value_map
                             .get(&V9Field::FirstSwitched)
-                            .and_then(|v| v.try_into().ok()),
+                            .and_then(v9_sys_uptime_millis),
                         last_seen: value_map
                             .get(&V9Field::LastSwitched)
-                            .and_then(|v| v.try_into().ok()),
+                            .and_then(v9_sys_uptime_millis),
                         src_mac: value_map
                             .get(&V9Field::InSrcMac)
                             .and_then(|v| v.try_into().ok()),
